@@ -327,7 +327,7 @@ EMPTY_FIELDS = {
     "DS": ["digest"], "CDS": ["digest"], "DLV": ["digest"], "DNSKEY": ["key"], "CDNSKEY": ["key"], "KEY": ["key"],
     "RRSIG": ["signature"], "SIG": ["signature"], "TLSA": ["cert"], "SMIMEA": ["cert"], "SSHFP": ["fingerprint"],
     "CERT": ["certificate"], "DHCID": ["data"], "OPENPGPKEY": ["key"], "BRID": ["value"], "HHIT": ["value"],
-    "ZONEMD": ["digest"], "IPSECKEY": ["key"], "TKEY": ["key"], "TSIG": ["mac"], "HIP": ["hit", "key"], "NSEC3": ["next"],
+    "ZONEMD": ["digest"], "TKEY": ["key"], "TSIG": ["mac"], "HIP": ["hit", "key"], "NSEC3": ["next"],
 }
 
 
